@@ -24,6 +24,7 @@ def register(PROPS):
             'thorough': 'BYEASTER complete; SHIFT complete: 2934 specs x 366 rules x 3 families = 3 221 532 streams; quick set again under ASan',
         },
         'drivers': [
+            D('c17_easter_shift', ['mode=long', 'nlist=quick', 'ymax=1945'], ['mode=long', 'nlist=all', 'ymax=1961'], label='shift-long'),
             D('c17_easter_shift', ['mode=easter', '--sample-every', '61'], label='easter', shards=8),
             D('c17_easter_shift', ['mode=shift', 'fam=plain', 'nlist=quick', '--sample-every', '97'],
               ['mode=shift', 'fam=plain', 'nlist=all', '--sample-every', '1777'], label='shift-plain'),
